@@ -506,10 +506,10 @@ func init() {
 			}
 			return ""
 		},
-		FindingKey: func(line, out, clause string) string { return clause },
-		Nontrivial: func(line, out string) bool { return strings.HasPrefix(out, "ok") },
-		Rule:       "login records for all encrypt ids with every field length 0..32 plus random binary field values (real pack vs the Lean interpreter of the regenerated layout); full encrypted logins against the scripted peer with password lengths 0..70 (RSA-OAEP capacity 86 bytes incl. nonce), 0..3 remote servers, nonce lengths 1..64, passwords colliding with other fields: byte search for every secret in everything written and in the error text, decryption of every ciphertext with the peer's private key, freshness across ciphertexts and across two logins; plain-flow control. Non-trivial = record packed / login ran",
-		Timeout:    30 * time.Second,
+		FindingKey:  func(line, out, clause string) string { return clause },
+		Nontrivial:  func(line, out string) bool { return strings.HasPrefix(out, "ok") },
+		Rule:        "login records for all encrypt ids with every field length 0..32 plus random binary field values (real pack vs the Lean interpreter of the regenerated layout); full encrypted logins against the scripted peer with password lengths 0..70 (RSA-OAEP capacity 86 bytes incl. nonce), 0..3 remote servers, nonce lengths 1..64, passwords colliding with other fields: byte search for every secret in everything written and in the error text, decryption of every ciphertext with the peer's private key, freshness across ciphertexts and across two logins; plain-flow control. Non-trivial = record packed / login ran",
+		Timeout:     30 * time.Second,
 		Assumptions: []string{"RSA-OAEP hides its input and crypto/rand is fresh (cryptographic assumptions, outside the theorem)", "1024-bit test key"},
 	})
 }
